@@ -21,7 +21,13 @@ EXTENDS WSServerCommon
 CONSTANTS Proto,     \* "tws" | "gws"
           Impl,      \* "ref" | "pinned"
           Echo,      \* ref only: echo the client's complete for an active operation
-          MaxLen     \* bound on the schedule length (incarnation numbers)
+          MaxLen,    \* bound on the schedule length (incarnation numbers)
+          Fixes      \* pinned only: which repairs the code under test already has, subset of {"D8a","D8b","F4","F5"}
+                     \*   D8a  complete is echoed only for an operation that was actually stopped
+                     \*   D8b  a stopped operation emits nothing any more (and does not release the id)
+                     \*   F4   subscribe/start without id is refused (4400 / connection_error), nothing starts
+                     \*   F5   the id of a query is released before its terminal message is written
+                     \* (F3 - the poll loop goes on after error(id) - is pinned by an existing test and stays)
 
 KS == 1..MaxLen
 NoEx == [id |-> "", kind |-> "", st |-> "none", canc |-> FALSE, infl |-> FALSE, n |-> 0]
@@ -58,8 +64,12 @@ Registered(s, id) == id \in OpIds /\ s.reg[id] # 0
 CompleteName == "complete"
 DataName  == IF Proto = "tws" THEN "next" ELSE "data"
 
+Has(f) == Impl = "pinned" /\ f \in Fixes
+NoIdRefused == Impl = "ref" \/ Has("F4")
+
 HStop(s, id) ==
-  IF Impl = "pinned" THEN R(Stop(s, id), <<Msg("complete", id)>>)
+  IF Impl = "pinned" /\ ~Has("D8a") THEN R(Stop(s, id), <<Msg("complete", id)>>)
+  ELSE IF Impl = "pinned" THEN (IF Registered(s, id) THEN R(Stop(s, id), <<Msg("complete", id)>>) ELSE R(s, <<>>))
   ELSE IF Echo /\ Registered(s, id) THEN R(Stop(s, id), <<Msg("complete", id)>>)
   ELSE R(Stop(s, id), <<>>)
 
@@ -78,7 +88,7 @@ TwsReact(s, sym, k) ==
     [] sym = "pong" -> R(s, <<>>)
     [] sym = "missingid" ->
          IF ~s.inited THEN CloseWith(s, 4401)
-         ELSE IF Impl = "ref" THEN CloseWith(s, 4400)
+         ELSE IF NoIdRefused THEN CloseWith(s, 4400)
          ELSE IF s.reg[""] # 0 THEN CloseWith(s, 4409)
          ELSE R(Start(s, "", "q", k), <<>>)
     [] sym \in SubSyms ->
@@ -98,7 +108,7 @@ GwsReact(s, sym, k) ==
     [] sym \in {"malformed", "binary"} ->
          IF Impl = "ref" THEN R(s, <<Msg("connection_error", "")>>) ELSE R(s, <<Msg("error", "")>>)
     [] sym = "missingid" ->
-         IF Impl = "ref" THEN R(s, <<Msg("connection_error", "")>>)
+         IF NoIdRefused THEN R(s, <<Msg("connection_error", "")>>)
          ELSE IF s.reg[""] # 0 THEN R(s, <<Msg("error", "")>>)
          ELSE R(Start(s, "", "q", k), <<>>)
     [] sym \in SubSyms ->
